@@ -211,6 +211,31 @@ func (g *genStorage) Block(w *World, b int) Block {
 			add(g.paramStep(rng))
 		}
 	}
+	if g.profile == "gauges" && rng.Chance(1, 6) && len(g.users) >= 2 {
+		// two buyers, equal parameters, same block: equal gauge identity
+		a, bb := g.users[0], g.users[1]
+		if rng.Chance(1, 2) {
+			op := g.buyOp(rng, a)
+			delete(op.N, "ref")
+			delete(op.N, "for")
+			delete(op.S, "refstr")
+			op2 := mkOp("buy_storage", bb)
+			for k, v := range op.N {
+				op2.N[k] = v
+			}
+			add(txStep(op))
+			add(txStep(op2))
+		} else {
+			f := rng.Intn(g.nFiles)
+			op := g.postOp(rng, a, f, true)
+			op2 := mkOp("post_file", bb)
+			for k, v := range op.N {
+				op2.N[k] = v
+			}
+			add(txStep(op))
+			add(txStep(op2))
+		}
+	}
 	if m.provider > 0 && rng.Intn(1000) < m.provider {
 		p := g.provers[rng.Intn(len(g.provers))]
 		switch rng.Intn(7) {
